@@ -36,6 +36,9 @@ class _Rewrite(ast.NodeTransformer):
       names=[a.id for a in n.args[:-1]]; body=s.visit(n.args[-1])
       gens=[ast.comprehension(ast.Name(nm,ast.Store()),ast.Name('__U',ast.Load()),[],0) for nm in names]
       return ast.Call(ast.Name('all' if n.func.id=='forall' else 'any',ast.Load()),[ast.GeneratorExp(body,gens)],[])
+    if isinstance(n.func,ast.Name) and n.func.id=='implies' and len(n.args)==2 and not n.keywords:
+      # short-circuit: the consequent (often another quantifier) is only evaluated where the antecedent holds
+      return ast.BoolOp(ast.Or(),[ast.UnaryOp(ast.Not(),s.visit(n.args[0])),s.visit(n.args[1])])
     if isinstance(n.func,ast.Name) and n.func.id=='fresh':
       return ast.Call(ast.Name('__fresh',ast.Load()),[s.visit(a) for a in n.args],[])
     return s.generic_visit(n)
@@ -210,6 +213,8 @@ def check_call(contract, args, repo, ns=None):
 def _universe(vals):
   out=[]; seen=set()
   def add(x):
+    try: hash(x)
+    except TypeError: return             # unhashable objects cannot be members of the sets / keys of the dicts the clauses speak about
     try: h=(type(x).__name__,x) if isinstance(x,(int,str,bool,type(None))) else id(x)
     except Exception: h=id(x)
     if h not in seen: seen.add(h); out.append(x)
@@ -223,6 +228,8 @@ def _universe(vals):
         else:
           add(x)
           if isinstance(x,tuple): walk(x,d+1)
+    elif type(v).__name__=='SimpleNamespace':
+      for x in vars(v).values(): walk(x,d+1)
     else: add(v)
   for v in vals: walk(v)
   return out
